@@ -1,1 +1,480 @@
-//! C13 — (harnesses not written yet)
+//! C13 — truncated or failing sources give errors and only genuine shapes.
+use crate::env::*;
+use crate::model::*;
+use crate::refcodec::*;
+use shapefile::header::Header;
+use shapefile::record::{ConcreteReadableShape, ReadableShape, WritableShape};
+use shapefile::*;
+
+/// A valid file image produced by the independent encoder: `n` records of type S with the
+/// given structures and symbolic payload. Returns (length, record end offsets, models).
+pub fn valid_image<S: TShape, const N: usize>(
+    img: &mut [u8; N],
+    idx: &mut [u8; N],
+    specs: &[Spec],
+) -> (usize, usize, [usize; MAXR], [Model; MAXR]) {
+    let n = specs.len();
+    let mut models = [Model::empty(S::CODE); MAXR];
+    let mut ends = [0usize; MAXR];
+    let mut p = 100;
+    let mut q = 100;
+    let mut i = 0;
+    while i < n {
+        let mut m = sym_spec(S::CODE, &specs[i]);
+        m.with_m = may_have_m(S::CODE);
+        // a conformant producer stores some box; the reader must hand it back as stored
+        let mut c = 0;
+        while c < 8 {
+            m.bbox[c] = any_f64();
+            c += 1;
+        }
+        let e = enc_record(&m, (i + 1) as i32, img, p);
+        q = enc_index_entry(idx, q, p, e - p - 8);
+        models[i] = m;
+        ends[i] = e;
+        p = e;
+        i += 1;
+    }
+    let bbox = [0.0f64; 8];
+    enc_header(img, p, S::CODE, &bbox);
+    enc_header(idx, q, S::CODE, &bbox);
+    (p, q, ends, models)
+}
+
+/// What the reader must report for a stored model (C01/C03 normalisation of measures).
+pub fn assert_read_equals_stored<S: TShape>(stored: &Model, got: &Model) {
+    assert!(stored.nparts == got.nparts && stored.nv == got.nv);
+    let mut i = 0;
+    while i < stored.nparts {
+        assert!(stored.plen[i] == got.plen[i]);
+        if S::CODE == T_MULTIPATCH {
+            assert!(stored.pkind[i] == got.pkind[i]);
+        }
+        i += 1;
+    }
+    let m_rule = if !may_have_m(S::CODE) {
+        0
+    } else if S::MULTI {
+        2
+    } else {
+        1
+    };
+    assert!(same_vertices(stored, got, has_z(S::CODE), m_rule));
+    if S::MULTI {
+        assert!(same_bbox(stored, got, 0, 4));
+        if has_z(S::CODE) {
+            assert!(same_bbox(stored, got, 4, 6));
+        }
+        if may_have_m(S::CODE) {
+            assert!(same_bbox(stored, got, 6, 8));
+        }
+    }
+}
+
+/// (a) .shp truncated at a symbolic length t in 0..=L, no index.
+pub fn truncated_shp<S: TShape, const N: usize>(specs: &[Spec]) {
+    let mut img = [0u8; N];
+    let mut idx = [0u8; N];
+    let (len, _, ends, models) = valid_image::<S, N>(&mut img, &mut idx, specs);
+    let t: usize = kani::any();
+    kani::assume(t <= len);
+    truncated_at::<S, N>(&img, specs.len(), len, &ends, &models, t);
+    kani::cover!(specs.len() > 0 && t > 100 && t < ends[0], "cut inside the first record");
+    kani::cover!(t == len, "not truncated");
+}
+
+/// Same, for multi-vertex records: every t in t_from..=t_to by a concrete loop (payload
+/// symbolic). With a symbolic t the part and point counts come out of reads that may fail, and
+/// counts taken out of a merged Ok/Err Result are not constants for CBMC (unbounded vertex loops).
+pub fn truncated_shp_range<S: TShape, const N: usize>(specs: &[Spec], t_from: usize, t_to: usize) {
+    let mut img = [0u8; N];
+    let mut idx = [0u8; N];
+    let (len, _, ends, models) = valid_image::<S, N>(&mut img, &mut idx, specs);
+    let mut t = t_from;
+    while t <= t_to && t <= len {
+        truncated_at::<S, N>(&img, specs.len(), len, &ends, &models, t);
+        t += 1;
+    }
+    kani::cover!(true, "range of truncation lengths explored");
+}
+
+fn truncated_at<S: TShape, const N: usize>(img: &[u8; N], n: usize, len: usize, ends: &[usize; MAXR], models: &[Model; MAXR], t: usize) {
+    let _ = len;
+    let mut rd = ShapeReader::new(MemSource::with_len(img, t));
+    match &mut rd {
+        Err(e) => {
+            assert!(t < 100, "a file holding its complete header could not be opened");
+            assert!(matches!(e, Error::IoError(_)), "truncated header reported as another error than I/O");
+        }
+        Ok(rd) => {
+            assert!(t >= 100, "a file cut inside its header was opened");
+            let mut it = rd.iter_shapes_as::<S>();
+            let mut stop = false;
+            let mut i = 0;
+            while i < n && !stop {
+                let item = it.next();
+                if t >= ends[i] {
+                    match &item {
+                        Some(Ok(s)) => assert_read_equals_stored::<S>(&models[i], &s.extract()),
+                        _ => assert!(false, "a record wholly inside the retained bytes was not returned"),
+                    }
+                } else {
+                    match &item {
+                        Some(Err(Error::IoError(_))) => {}
+                        Some(Ok(_)) => assert!(false, "the reader invented a shape from a cut record"),
+                        Some(Err(_)) => assert!(false, "the cut record was reported as another error than I/O"),
+                        None => assert!(false, "the cut record was silently dropped"),
+                    }
+                    stop = true;
+                }
+                std::mem::forget(item);
+                i += 1;
+            }
+            if !stop {
+                let item = it.next();
+                assert!(item.is_none());
+                std::mem::forget(item);
+            }
+        }
+    }
+    std::mem::forget(rd);
+}
+
+const PT: Spec = spec(&[]);
+const PL3: Spec = spec(&[3]);
+const PL2: Spec = spec(&[2]);
+
+// H: tier=quick; unwind=34; sym=truncation length t in 0..=156, payload of 2 Points; asserts=open fails (IoError) iff t<100; every record wholly inside t is returned equal to the stored one; the cut record is Some(Err(IoError)); never a panic or an invented shape
+#[kani::proof]
+#[kani::unwind(34)]
+fn c13_q_trunc_shp_point_2() {
+    truncated_shp::<Point, 160>(&[PT, PT]);
+}
+macro_rules! tr {
+    ($name:ident, $T:ty, $N:expr, $specs:expr, $from:expr, $to:expr) => {
+        #[kani::proof]
+        #[kani::unwind(34)]
+        fn $name() {
+            truncated_shp_range::<$T, $N>(&$specs, $from, $to);
+        }
+    };
+}
+// H: tier=thorough; unwind=34; sym=payload of a Polyline [3] (file of 204 bytes: header 0..100, record header 100..108, type 108..112, box 112..144, counts 144..152, part array 152..156, points 156..204); truncation=every t in 0..=9 (concrete loop); asserts=as trunc_shp_point_2
+tr!(c13_t_trunc_shp_polyline_3_t0_9, Polyline, 224, [PL3], 0, 9);
+// H: tier=thorough; unwind=34; sym=payload of a Polyline [3] (file of 204 bytes: header 0..100, record header 100..108, type 108..112, box 112..144, counts 144..152, part array 152..156, points 156..204); truncation=every t in 10..=19 (concrete loop); asserts=as trunc_shp_point_2
+tr!(c13_t_trunc_shp_polyline_3_t10_19, Polyline, 224, [PL3], 10, 19);
+// H: tier=thorough; unwind=34; sym=payload of a Polyline [3] (file of 204 bytes: header 0..100, record header 100..108, type 108..112, box 112..144, counts 144..152, part array 152..156, points 156..204); truncation=every t in 20..=29 (concrete loop); asserts=as trunc_shp_point_2
+tr!(c13_t_trunc_shp_polyline_3_t20_29, Polyline, 224, [PL3], 20, 29);
+// H: tier=thorough; unwind=34; sym=payload of a Polyline [3] (file of 204 bytes: header 0..100, record header 100..108, type 108..112, box 112..144, counts 144..152, part array 152..156, points 156..204); truncation=every t in 30..=39 (concrete loop); asserts=as trunc_shp_point_2
+tr!(c13_t_trunc_shp_polyline_3_t30_39, Polyline, 224, [PL3], 30, 39);
+// H: tier=thorough; unwind=34; sym=payload of a Polyline [3] (file of 204 bytes: header 0..100, record header 100..108, type 108..112, box 112..144, counts 144..152, part array 152..156, points 156..204); truncation=every t in 40..=49 (concrete loop); asserts=as trunc_shp_point_2
+tr!(c13_t_trunc_shp_polyline_3_t40_49, Polyline, 224, [PL3], 40, 49);
+// H: tier=thorough; unwind=34; sym=payload of a Polyline [3] (file of 204 bytes: header 0..100, record header 100..108, type 108..112, box 112..144, counts 144..152, part array 152..156, points 156..204); truncation=every t in 50..=59 (concrete loop); asserts=as trunc_shp_point_2
+tr!(c13_t_trunc_shp_polyline_3_t50_59, Polyline, 224, [PL3], 50, 59);
+// H: tier=thorough; unwind=34; sym=payload of a Polyline [3] (file of 204 bytes: header 0..100, record header 100..108, type 108..112, box 112..144, counts 144..152, part array 152..156, points 156..204); truncation=every t in 60..=69 (concrete loop); asserts=as trunc_shp_point_2
+tr!(c13_t_trunc_shp_polyline_3_t60_69, Polyline, 224, [PL3], 60, 69);
+// H: tier=thorough; unwind=34; sym=payload of a Polyline [3] (file of 204 bytes: header 0..100, record header 100..108, type 108..112, box 112..144, counts 144..152, part array 152..156, points 156..204); truncation=every t in 70..=79 (concrete loop); asserts=as trunc_shp_point_2
+tr!(c13_t_trunc_shp_polyline_3_t70_79, Polyline, 224, [PL3], 70, 79);
+// H: tier=thorough; unwind=34; sym=payload of a Polyline [3] (file of 204 bytes: header 0..100, record header 100..108, type 108..112, box 112..144, counts 144..152, part array 152..156, points 156..204); truncation=every t in 80..=89 (concrete loop); asserts=as trunc_shp_point_2
+tr!(c13_t_trunc_shp_polyline_3_t80_89, Polyline, 224, [PL3], 80, 89);
+// H: tier=thorough; unwind=34; sym=payload of a Polyline [3] (file of 204 bytes: header 0..100, record header 100..108, type 108..112, box 112..144, counts 144..152, part array 152..156, points 156..204); truncation=every t in 90..=99 (concrete loop); asserts=as trunc_shp_point_2
+tr!(c13_t_trunc_shp_polyline_3_t90_99, Polyline, 224, [PL3], 90, 99);
+// H: tier=quick; unwind=34; sym=payload of a Polyline [3] (file of 204 bytes: header 0..100, record header 100..108, type 108..112, box 112..144, counts 144..152, part array 152..156, points 156..204); truncation=every t in 100..=109 (concrete loop); asserts=as trunc_shp_point_2
+tr!(c13_q_trunc_shp_polyline_3_t100_109, Polyline, 224, [PL3], 100, 109);
+// H: tier=thorough; unwind=34; sym=payload of a Polyline [3] (file of 204 bytes: header 0..100, record header 100..108, type 108..112, box 112..144, counts 144..152, part array 152..156, points 156..204); truncation=every t in 110..=119 (concrete loop); asserts=as trunc_shp_point_2
+tr!(c13_t_trunc_shp_polyline_3_t110_119, Polyline, 224, [PL3], 110, 119);
+// H: tier=thorough; unwind=34; sym=payload of a Polyline [3] (file of 204 bytes: header 0..100, record header 100..108, type 108..112, box 112..144, counts 144..152, part array 152..156, points 156..204); truncation=every t in 120..=129 (concrete loop); asserts=as trunc_shp_point_2
+tr!(c13_t_trunc_shp_polyline_3_t120_129, Polyline, 224, [PL3], 120, 129);
+// H: tier=thorough; unwind=34; sym=payload of a Polyline [3] (file of 204 bytes: header 0..100, record header 100..108, type 108..112, box 112..144, counts 144..152, part array 152..156, points 156..204); truncation=every t in 130..=139 (concrete loop); asserts=as trunc_shp_point_2
+tr!(c13_t_trunc_shp_polyline_3_t130_139, Polyline, 224, [PL3], 130, 139);
+// H: tier=quick; unwind=34; sym=payload of a Polyline [3] (file of 204 bytes: header 0..100, record header 100..108, type 108..112, box 112..144, counts 144..152, part array 152..156, points 156..204); truncation=every t in 140..=149 (concrete loop); asserts=as trunc_shp_point_2
+tr!(c13_q_trunc_shp_polyline_3_t140_149, Polyline, 224, [PL3], 140, 149);
+// H: tier=quick; unwind=34; sym=payload of a Polyline [3] (file of 204 bytes: header 0..100, record header 100..108, type 108..112, box 112..144, counts 144..152, part array 152..156, points 156..204); truncation=every t in 150..=159 (concrete loop); asserts=as trunc_shp_point_2
+tr!(c13_q_trunc_shp_polyline_3_t150_159, Polyline, 224, [PL3], 150, 159);
+// H: tier=thorough; unwind=34; sym=payload of a Polyline [3] (file of 204 bytes: header 0..100, record header 100..108, type 108..112, box 112..144, counts 144..152, part array 152..156, points 156..204); truncation=every t in 160..=169 (concrete loop); asserts=as trunc_shp_point_2
+tr!(c13_t_trunc_shp_polyline_3_t160_169, Polyline, 224, [PL3], 160, 169);
+// H: tier=thorough; unwind=34; sym=payload of a Polyline [3] (file of 204 bytes: header 0..100, record header 100..108, type 108..112, box 112..144, counts 144..152, part array 152..156, points 156..204); truncation=every t in 170..=179 (concrete loop); asserts=as trunc_shp_point_2
+tr!(c13_t_trunc_shp_polyline_3_t170_179, Polyline, 224, [PL3], 170, 179);
+// H: tier=thorough; unwind=34; sym=payload of a Polyline [3] (file of 204 bytes: header 0..100, record header 100..108, type 108..112, box 112..144, counts 144..152, part array 152..156, points 156..204); truncation=every t in 180..=189 (concrete loop); asserts=as trunc_shp_point_2
+tr!(c13_t_trunc_shp_polyline_3_t180_189, Polyline, 224, [PL3], 180, 189);
+// H: tier=thorough; unwind=34; sym=payload of a Polyline [3] (file of 204 bytes: header 0..100, record header 100..108, type 108..112, box 112..144, counts 144..152, part array 152..156, points 156..204); truncation=every t in 190..=199 (concrete loop); asserts=as trunc_shp_point_2
+tr!(c13_t_trunc_shp_polyline_3_t190_199, Polyline, 224, [PL3], 190, 199);
+// H: tier=thorough; unwind=34; sym=payload of a Polyline [3] (file of 204 bytes: header 0..100, record header 100..108, type 108..112, box 112..144, counts 144..152, part array 152..156, points 156..204); truncation=every t in 200..=204 (concrete loop); asserts=as trunc_shp_point_2
+tr!(c13_t_trunc_shp_polyline_3_t200_204, Polyline, 224, [PL3], 200, 204);
+// H: tier=thorough; unwind=34; sym=truncation length t (symbolic), payload of 2 PointZ; asserts=as trunc_shp_point_2
+#[kani::proof]
+#[kani::unwind(34)]
+fn c13_t_trunc_shp_pointz_2() {
+    truncated_shp::<PointZ, 192>(&[PT, PT]);
+}
+// H: tier=thorough; unwind=34; sym=payload of PolylineZ [2] (252 bytes; Z block 188..220, M block 220..252); truncation=every t in 148..=157; asserts=as above
+tr!(c13_t_trunc_shp_polylinez_2_t148_157, PolylineZ, 288, [PL2], 148, 157);
+// H: tier=thorough; unwind=34; sym=payload of PolylineZ [2] (252 bytes; Z block 188..220, M block 220..252); truncation=every t in 200..=209; asserts=as above
+tr!(c13_t_trunc_shp_polylinez_2_t200_209, PolylineZ, 288, [PL2], 200, 209);
+// H: tier=thorough; unwind=34; sym=payload of PolylineZ [2] (252 bytes; Z block 188..220, M block 220..252); truncation=every t in 210..=219; asserts=as above
+tr!(c13_t_trunc_shp_polylinez_2_t210_219, PolylineZ, 288, [PL2], 210, 219);
+// H: tier=thorough; unwind=34; sym=payload of PolylineZ [2] (252 bytes; Z block 188..220, M block 220..252); truncation=every t in 243..=252; asserts=as above
+tr!(c13_t_trunc_shp_polylinez_2_t243_252, PolylineZ, 288, [PL2], 243, 252);
+// H: tier=thorough; unwind=34; sym=payload of MultipointM 2 points then 1 point (first record ends at 188); truncation=every t in 176..=185 (across the record boundary); asserts=as above
+tr!(c13_t_trunc_shp_multipointm_2_1_t176_185, MultipointM, 320, [PL2, spec(&[1])], 176, 185);
+// H: tier=thorough; unwind=34; sym=payload of MultipointM 2 points then 1 point (first record ends at 188); truncation=every t in 186..=195 (across the record boundary); asserts=as above
+tr!(c13_t_trunc_shp_multipointm_2_1_t186_195, MultipointM, 320, [PL2, spec(&[1])], 186, 195);
+
+/// .shx truncated at a symbolic length t >= 100 (complete header; entries cut), .shp intact.
+pub fn truncated_shx<S: TShape, const N: usize>(specs: &[Spec]) {
+    let n = specs.len();
+    let mut img = [0u8; N];
+    let mut idx = [0u8; N];
+    let (len, xlen, _, models) = valid_image::<S, N>(&mut img, &mut idx, specs);
+    let t: usize = kani::any();
+    kani::assume(t >= 100 && t <= xlen);
+    let mut xs = MemSource::with_len(&idx, t);
+    xs.sure = 100;
+    let mut rd = ShapeReader::with_shx(MemSource::with_len(&img, len), xs);
+    match &mut rd {
+        Err(e) => {
+            assert!(t < xlen, "a complete index was refused");
+            assert!(matches!(e, Error::IoError(_)));
+        }
+        Ok(rd) => {
+            assert!(t == xlen, "an index whose entries are cut was accepted");
+            let mut i = 0;
+            while i < n {
+                let item = rd.read_nth_shape_as::<S>(i);
+                match &item {
+                    Some(Ok(s)) => assert_read_equals_stored::<S>(&models[i], &s.extract()),
+                    _ => assert!(false),
+                }
+                std::mem::forget(item);
+                i += 1;
+            }
+        }
+    }
+    std::mem::forget(rd);
+    kani::cover!(t == xlen);
+    kani::cover!(t > 100 && t < xlen);
+}
+// H: tier=quick; unwind=34; sym=index truncation length t in 100..=116, payload of 2 Points; asserts=with_shx fails with IoError iff an entry is cut; the complete index gives both shapes by random access
+#[kani::proof]
+#[kani::unwind(34)]
+fn c13_q_trunc_shx_point_2() {
+    truncated_shx::<Point, 160>(&[PT, PT]);
+}
+
+// H: tier=quick; unwind=34; sym=all 100 header bytes' box part and truncation length t in 0..100; asserts=Header::read_from (first thing both open routes do, for .shp and .shx) returns Err(IoError) for every t<100 and Ok at t=100
+#[kani::proof]
+#[kani::unwind(34)]
+fn c13_q_trunc_header() {
+    let mut img = [0u8; 100];
+    let mut bbox = [0.0f64; 8];
+    let mut i = 0;
+    while i < 8 {
+        bbox[i] = any_f64();
+        i += 1;
+    }
+    enc_header(&mut img, 100, T_POLYLINE, &bbox);
+    let t: usize = kani::any();
+    kani::assume(t <= 100);
+    let mut src = MemSource::with_len(&img, t);
+    let r = Header::read_from(&mut src);
+    match &r {
+        Ok(h) => {
+            assert!(t == 100);
+            assert!(h.file_length == 50 && h.shape_type as i32 == T_POLYLINE);
+            assert!(beq(h.bbox.min.x, bbox[0]) && beq(h.bbox.min.y, bbox[1]) && beq(h.bbox.max.x, bbox[2]) && beq(h.bbox.max.y, bbox[3]));
+            assert!(beq(h.bbox.min.z, bbox[4]) && beq(h.bbox.max.z, bbox[5]) && beq(h.bbox.min.m, bbox[6]) && beq(h.bbox.max.m, bbox[7]));
+        }
+        Err(Error::IoError(_)) => assert!(t < 100),
+        Err(_) => assert!(false),
+    }
+    kani::cover!(r.is_ok());
+    kani::cover!(r.is_err());
+    std::mem::forget(r);
+}
+
+/// (b) a source that fails at its k-th operation: the call in progress returns that error.
+/// Decided in three layers, because a symbolic failure point that survives across reader calls
+/// leaves every later reader field inside a Result whose Ok/Err alternatives were merged, which
+/// CBMC cannot fold (no result in 900 s / 10 GB for `next()` after a faulting call):
+///  (b1) open: k symbolic over every read of `ShapeReader::new`;
+///  (b2) record decoding: k symbolic over every read of `S::read_from` (the only reads an
+///       iteration step or a random access performs besides the two of the record header);
+///  (b3) seeks: `read_nth_shape_as` with its first / second seek failing (concrete choice),
+///       payload symbolic; plus (a) above: a read that hits the end of the source at ANY byte of
+///       the traversal is returned by the iterator as Some(Err(IoError)).
+pub fn failing_open<const N: usize>() {
+    let mut img = [0u8; N];
+    let mut bbox = [0.0f64; 8];
+    let mut i = 0;
+    while i < 8 {
+        bbox[i] = any_f64();
+        i += 1;
+    }
+    enc_header(&mut img, N, T_POLYLINEZ, &bbox);
+    let k: u32 = kani::any();
+    kani::assume(k <= 20);
+    faults_reset();
+    let rd = ShapeReader::new(FaultSource::new(&img[..N], k, false));
+    if faults_fired() > 0 {
+        assert!(matches!(rd, Err(Error::IoError(_))), "a source failure while opening was swallowed");
+    } else {
+        assert!(rd.is_ok(), "open failed although the source did not");
+    }
+    kani::cover!(faults_fired() > 0);
+    kani::cover!(faults_fired() == 0);
+    std::mem::forget(rd);
+}
+// H: tier=quick; unwind=34; sym=k (failing read, 0..=20), header box; call=ShapeReader::new; asserts=Err(IoError) iff the source failed during open
+#[kani::proof]
+#[kani::unwind(34)]
+fn c13_q_failing_source_open() {
+    failing_open::<128>();
+}
+
+/// Every failing read index k in k_from..=k_to is tried by a concrete loop (payload symbolic):
+/// counts are read through `?` from reads that may fail, and a count taken out of a merged
+/// Ok/Err Result is not a constant for CBMC, which would make the vertex loops unbounded if k
+/// were a solver variable. `k_to` beyond the number of reads = no failure at all.
+pub fn failing_record<S: TShape, const N: usize>(sp: &Spec, k_from: u32, k_to: u32) {
+    let mut img = [0u8; N];
+    let mut m = sym_spec(S::CODE, sp);
+    m.with_m = may_have_m(S::CODE);
+    let mut c = 0;
+    while c < 8 {
+        m.bbox[c] = any_f64();
+        c += 1;
+    }
+    let e = enc_content(&m, &mut img, 0);
+    let mut k = k_from;
+    while k <= k_to {
+        failing_record_at::<S, N>(&img, e, &m, k, k_to);
+        k += 1;
+    }
+}
+
+fn failing_record_at<S: TShape, const N: usize>(img: &[u8; N], e: usize, m: &Model, k: u32, max_ops: u32) {
+    let m = *m;
+    faults_reset();
+    let mut src = FaultSource::new(&img[..e], k, false);
+    let r = S::read_from(&mut src, e as i32);
+    if src.fired {
+        assert!(matches!(r, Err(Error::IoError(_))), "a source failure while decoding a record was swallowed");
+    } else {
+        match &r {
+            Ok(s) => assert_read_equals_stored::<S>(&m, &s.extract()),
+            Err(_) => assert!(false, "decoding failed although the source did not"),
+        }
+        let _ = max_ops;
+    }
+    kani::cover!(true, "decoding attempted with this failure point");
+    std::mem::forget(r);
+}
+macro_rules! fr {
+    ($name:ident, $T:ty, $N:expr, $sp:expr, $from:expr, $to:expr) => {
+        #[kani::proof]
+        #[kani::unwind(34)]
+        fn $name() {
+            failing_record::<$T, $N>(&$sp, $from, $to);
+        }
+    };
+}
+// H: tier=quick; unwind=34; sym=payload; fault=every failing read k in 0..=8 (concrete loop; 5 reads + none); call=PointZ::read_from; asserts=Err(IoError) iff a read failed, else the stored shape
+fr!(c13_q_failing_record_pointz, PointZ, 64, PT, 0, 8);
+// H: tier=quick; unwind=34; sym=payload; fault=every k in 0..=12; call=Polyline::read_from of a [3] record (type, box, counts, part array, points); asserts=as above
+fr!(c13_q_failing_record_polyline_3_a, Polyline, 128, PL3, 0, 12);
+// H: tier=quick; unwind=34; sym=payload; fault=every k in 13..=24 (24 = beyond the last read: no failure); call=Polyline::read_from of a [3] record; asserts=as above
+fr!(c13_q_failing_record_polyline_3_b, Polyline, 128, PL3, 13, 24);
+// H: tier=thorough; unwind=34; sym=payload; fault=every k in 0..=12; call=PolylineZ::read_from of a [2] record; asserts=as above
+fr!(c13_t_failing_record_polylinez_2_a, PolylineZ, 192, PL2, 0, 12);
+// H: tier=thorough; unwind=34; sym=payload; fault=every k in 13..=24; call=PolylineZ::read_from of a [2] record (Z range/array, M range/array); asserts=as above
+fr!(c13_t_failing_record_polylinez_2_b, PolylineZ, 192, PL2, 13, 24);
+// H: tier=thorough; unwind=34; sym=payload; fault=every k in 0..=16; call=MultipointM::read_from of 2 points; asserts=as above
+fr!(c13_t_failing_record_multipointm_2, MultipointM, 160, PL2, 0, 16);
+// H: tier=thorough; unwind=34; sym=payload; fault=every k in 0..=14; call=Multipatch::read_from of a strip of 3; asserts=as above
+fr!(c13_t_failing_record_multipatch_3_a, Multipatch, 256, spec_k(&[3], &[0], &[], &[]), 0, 14);
+// H: tier=thorough; unwind=34; sym=payload; fault=every k in 15..=30; call=Multipatch::read_from of a strip of 3; asserts=as above
+fr!(c13_t_failing_record_multipatch_3_b, Multipatch, 256, spec_k(&[3], &[0], &[], &[]), 15, 30);
+
+/// (b3) random access with a failing seek.
+pub fn failing_seek<const N: usize>(which_seek: u32) {
+    let mut img = [0u8; N];
+    let mut idx = [0u8; N];
+    let (len, xlen, _, _models) = valid_image::<Point, N>(&mut img, &mut idx, &[PT, PT]);
+    faults_reset();
+    let mut src = FaultSource::new(&img[..len], u32::MAX, false);
+    src.fail_seek_no = which_seek;
+    let mut rd = ShapeReader::with_shx(src, MemSource::with_len(&idx, xlen));
+    match &mut rd {
+        Ok(rd) => {
+            let item = rd.read_nth_shape_as::<Point>(1);
+            assert!(faults_fired() == 1);
+            assert!(matches!(item, Some(Err(Error::IoError(_)))), "a failing seek during random access was swallowed");
+            std::mem::forget(item);
+        }
+        Err(_) => assert!(false),
+    }
+    std::mem::forget(rd);
+    kani::cover!(true, "seek failed");
+}
+// H: tier=quick; unwind=34; sym=payload of 2 Points; fault=the seek to the record fails; call=read_nth_shape_as(1); asserts=Some(Err(IoError))
+#[kani::proof]
+#[kani::unwind(34)]
+fn c13_q_failing_seek_to_record() {
+    failing_seek::<160>(0);
+}
+// H: tier=quick; unwind=34; sym=payload of 2 Points; fault=the seek back to the first record fails after a successful read; call=read_nth_shape_as(1); asserts=Some(Err(IoError)), not the shape
+#[kani::proof]
+#[kani::unwind(34)]
+fn c13_q_failing_seek_back() {
+    failing_seek::<160>(1);
+}
+
+/// (c) short reads: every read() hands out fewer bytes than asked (three uniform policies).
+pub fn short_reads<S: TShape, const N: usize>(specs: &[Spec], policy: u8) {
+    let n = specs.len();
+    let mut img = [0u8; N];
+    let mut idx = [0u8; N];
+    let (len, _, _, models) = valid_image::<S, N>(&mut img, &mut idx, specs);
+    let mut src = FaultSource::new(&img[..len], u32::MAX, true);
+    src.short_policy = policy;
+    let mut rd = ShapeReader::new(src);
+    match &mut rd {
+        Ok(rd) => {
+            let mut it = rd.iter_shapes_as::<S>();
+            let mut i = 0;
+            while i < n {
+                let item = it.next();
+                match &item {
+                    Some(Ok(s)) => assert_read_equals_stored::<S>(&models[i], &s.extract()),
+                    _ => assert!(false, "short reads changed what the reader returns"),
+                }
+                std::mem::forget(item);
+                i += 1;
+            }
+            let item = it.next();
+            assert!(item.is_none());
+            std::mem::forget(item);
+        }
+        Err(_) => assert!(false),
+    }
+    std::mem::forget(rd);
+    kani::cover!(true, "all shapes read through short reads");
+}
+// H: tier=quick; unwind=34; sym=payload of 2 PointM; schedule=every read() returns 1 byte; asserts=same shapes as stored
+#[kani::proof]
+#[kani::unwind(34)]
+fn c13_q_short_reads_1byte_pointm_2() {
+    short_reads::<PointM, 192>(&[PT, PT], 1);
+}
+// H: tier=quick; unwind=34; sym=payload of Polyline [2]; schedule=every read() returns all but one byte; asserts=same shapes as stored
+#[kani::proof]
+#[kani::unwind(34)]
+fn c13_q_short_reads_allbut1_polyline_2() {
+    short_reads::<Polyline, 192>(&[PL2], 2);
+}
+// H: tier=thorough; unwind=34; sym=payload of PolylineZ [2]; schedule=every read() returns half; asserts=same shapes as stored
+#[kani::proof]
+#[kani::unwind(34)]
+fn c13_t_short_reads_half_polylinez_2() {
+    short_reads::<PolylineZ, 288>(&[PL2], 3);
+}
